@@ -76,15 +76,36 @@ func (vc *VC) emitVariant(o *Obl, dir string, idx int, variant int) (string, int
 			}
 		}
 	}
+	// slicing by program order: a definition or fact that mentions a symbol created after the obligation cannot be needed by
+	// it (symbols are numbered in creation order; facts added when a loop is closed only mention symbols of its header and
+	// of the state before it, so they stay available to the obligations of the loop body)
+	late := func(at int) bool {
+		return o.Mark > 0 && at > o.Mark && (o.Hi == 0 || at <= o.Hi) && os.Getenv("GOVC_NOSLICE") == ""
+	}
+	if os.Getenv("GOVC_DEBUGMARK") != "" {
+		fmt.Fprintf(os.Stderr, "MARK %s mark=%d hi=%d\n", o.Name, o.Mark, o.Hi)
+
+	}
+	inCut := func(at int) bool {
+		return o.CutHi > 0 && at > o.CutLo && at <= o.CutHi
+	}
+	hasQuant := func(t string) bool {
+		return strings.Contains(t, "(forall ") || strings.Contains(t, "(exists ")
+	}
 	defIdx := map[string]int{}
 	for i, d := range vc.defs {
+		if i < len(vc.defAt) && late(vc.defAt[i]) {
+			continue
+		}
 		defIdx[d.Name] = i
 	}
 	// facts (asserts) are included when they share a symbol with the cone; iterate to a fixpoint
 	factSyms := make([]map[string]bool, len(vc.asserts))
 	for i, a := range vc.asserts {
 		m := map[string]bool{}
-		symbols(a, m)
+		if !(i < len(vc.assertAt) && (late(vc.assertAt[i]) || (inCut(vc.assertAt[i]) && hasQuant(a)))) {
+			symbols(a, m)
+		}
 		factSyms[i] = m
 	}
 	declared := map[string]bool{}
@@ -197,7 +218,11 @@ func (vc *VC) emitVariant(o *Obl, dir string, idx int, variant int) (string, int
 		d := vc.defs[i]
 		if d.Sort == "Bool" && strings.HasPrefix(d.Name, "pc") {
 			// path conditions occur only positively: an implication keeps assumed quantified facts in positive polarity
-			fmt.Fprintf(&b, "(assert (=> %s %s))\n", d.Name, d.Term)
+			term := d.Term
+			if i < len(vc.defAt) && inCut(vc.defAt[i]) && hasQuant(term) {
+				term = stripQuantConjuncts(term)
+			}
+			fmt.Fprintf(&b, "(assert (=> %s %s))\n", d.Name, term)
 			continue
 		}
 		fmt.Fprintf(&b, "(assert (= %s %s))\n", d.Name, d.Term)
@@ -262,6 +287,22 @@ func (vc *VC) emitVariant(o *Obl, dir string, idx int, variant int) (string, int
 					}
 				}
 			}
+			// images of the skolem positions under "source position" functions of assumed permutations (u_sortSrc(obj, j)):
+			// a fact about position j after sorting needs the facts about position sortSrc(obj, j) before it
+			for _, a := range boundApps(ctx, "u_sortSrc") {
+				if o.Kind == "inv-step" || o.Kind == "dec" {
+					break // the state after the sort is re-established at the loop entry; steps work from the invariant
+				}
+				parts := splitSexp(a)
+				if len(parts) != 3 {
+					continue
+				}
+				for _, sk := range sks {
+					if len(terms) < 14 {
+						terms = append(terms, "(u_sortSrc "+parts[1]+" "+sk+")")
+					}
+				}
+			}
 			type item struct {
 				q     quantRec
 				depth int
@@ -306,7 +347,11 @@ func (vc *VC) emitVariant(o *Obl, dir string, idx int, variant int) (string, int
 			n := 0
 			seen := map[string]bool{}
 			qnames := map[string]string{}
-			for len(work) > 0 && n < 400 {
+			maxInst := 400
+			if v := os.Getenv("GOVC_MAXINST"); v != "" {
+				fmt.Sscanf(v, "%d", &maxInst)
+			}
+			for len(work) > 0 && n < maxInst {
 				it := work[0]
 				work = work[1:]
 				vars := it.q.vars()
@@ -315,6 +360,7 @@ func (vc *VC) emitVariant(o *Obl, dir string, idx int, variant int) (string, int
 					// single-variable quantifiers are also tried at the integer locals in scope (loop counters, range indices)
 					for _, c := range o.Cands {
 						ok := true
+
 						m := map[string]bool{}
 						symbols(c, m)
 						for sy := range m {
@@ -418,6 +464,23 @@ func (vc *VC) emitVariant(o *Obl, dir string, idx int, variant int) (string, int
 		return "", 0, err
 	}
 	return path, len(text), nil
+}
+
+// stripQuantConjuncts weakens a conjunction by dropping its quantified conjuncts (recursively through nested "and"s)
+func stripQuantConjuncts(t string) string {
+	if !strings.Contains(t, "(forall ") && !strings.Contains(t, "(exists ") {
+		return t
+	}
+	if strings.HasPrefix(t, "(and ") {
+		var keep []string
+		for _, c := range splitSexp(t)[1:] {
+			if k := stripQuantConjuncts(c); k != T {
+				keep = append(keep, k)
+			}
+		}
+		return And(keep...)
+	}
+	return T
 }
 
 func builtinSym(s string) bool {
@@ -651,6 +714,40 @@ func splitSexp(t string) []string {
 }
 
 // groundApps returns the distinct applications "(f ...)" in text that contain no quantified variable.
+// boundApps: the applications of f in text whose last argument is a bound variable (first occurrence of each shape)
+func boundApps(text, f string) []string {
+	var out []string
+	seen := map[string]bool{}
+	pat := "(" + f + " "
+	for i := 0; i < len(text); {
+		j := strings.Index(text[i:], pat)
+		if j < 0 {
+			break
+		}
+		st := i + j
+		d := 0
+		k := st
+		for ; k < len(text); k++ {
+			if text[k] == '(' {
+				d++
+			} else if text[k] == ')' {
+				d--
+				if d == 0 {
+					break
+				}
+			}
+		}
+		app := text[st : k+1]
+		parts := splitSexp(app)
+		if len(parts) == 3 && strings.Contains(parts[2], "!q") && !strings.Contains(parts[1], "!q") && !seen[parts[1]] {
+			seen[parts[1]] = true
+			out = append(out, app)
+		}
+		i = st + len(pat)
+	}
+	return out
+}
+
 func groundApps(text, f string) []string {
 	var out []string
 	seen := map[string]bool{}
